@@ -29,7 +29,8 @@ InitState == [bk |-> <<>>, up |-> <<>>, vids |-> {}, uids |-> {}, mpb |-> {}]
 NewBucket == [ver |-> "None", objs |-> <<>>]
 
 DefaultCfg == [versioned |-> TRUE, auto |-> FALSE, single |-> "", paginate |-> TRUE,
-               pageErr |-> FALSE, suspDelete |-> "set", suspNone |-> "set", oldNull |-> "set"]
+               pageErr |-> FALSE, suspDelete |-> "set", suspNone |-> "set", oldNull |-> "set",
+               integrity |-> TRUE]
 
 StatusOf(code) ==
   CASE code \in {"BucketAlreadyExists", "BucketNotEmpty"} -> 409
@@ -411,6 +412,45 @@ ListUploads(st, cfg, op) ==    \* complete listing (max = 0) or first page; op: 
                     prefixes |-> [i \in 1..Len(pres) |-> pres[i].name],
                     trunc |-> lim < Len(flat)])
 
+\* ---- C08: one upload attempt, classified ----
+\* op: target \in {"put","chunked","post","part"}, b, k, body, meta,
+\*     digest \in {"none","good","wrong","malformed","short","empty"}   (Content-MD5)
+\*     length \in {"exact","shorter","longer","missing","negative","nonnumeric"}
+\*     keyClass \in {"ok","max","over"}   (max: exactly 1024 bytes, over: 1025)
+\*     metaClass \in {"ok","over"}         (over: far above the configured limit)
+\*     failAt : -1, or the number of bytes after which the body reader fails
+\*     (part uploads: uid, n)
+\* The set of reasons to refuse; the attempt is accepted iff it is empty.
+\* "!" stands for any error status (a transport-level failure has no S3 code),
+\* "*400" for a bare 400.
+UploadProblems(cfg, op) ==
+     (IF op.metaClass = "over" /\ op.target # "part" THEN {"MetadataTooLarge"} ELSE {})
+\cup (IF op.length = "missing" THEN {"MissingContentLength"} ELSE {})
+\cup (IF op.length \in {"negative", "nonnumeric"}
+        THEN (IF op.target = "part" THEN {"MissingContentLength"} ELSE {"*400"}) ELSE {})
+\cup (IF op.keyClass = "over" THEN {"KeyTooLongError"} ELSE {})
+\cup (IF cfg.integrity /\ op.digest \in {"malformed", "short", "empty"} THEN {"InvalidDigest"} ELSE {})
+\cup (IF cfg.integrity /\ op.digest = "wrong" THEN {"BadDigest"} ELSE {})
+\cup (IF op.length \in {"shorter", "longer"}
+        THEN {"IncompleteBody"} \cup (IF cfg.integrity /\ op.digest = "good" THEN {"BadDigest"} ELSE {}) ELSE {})
+\cup (IF op.failAt >= 0 THEN {"!"} ELSE {})
+
+UploadKey(op) == op.k \o (CASE op.keyClass = "max" -> <<33>> [] op.keyClass = "over" -> <<33, 33>> [] OTHER -> <<>>)
+
+Upload(st, cfg, op) ==
+  LET probs == UploadProblems(cfg, op)
+      k == UploadKey(op)
+      refuse(s) == {R(s, [alts |-> {IF c = "!" THEN [st |-> 0, code |-> "!"]
+                                    ELSE IF c = "*400" THEN [st |-> 400, code |-> "*"]
+                                    ELSE [st |-> StatusOf(c), code |-> c] : c \in probs}])} IN
+  IF op.target = "part"
+    THEN IF probs # {} THEN refuse(st)       \* (the bucket is not consulted by part uploads)
+         ELSE UploadPart(st, cfg, op)
+    ELSE LET e == Ensure(st, cfg, op.b) IN
+         IF ~e.ok THEN Err(st, "NoSuchBucket")
+         ELSE IF probs # {} THEN refuse(e.st)
+         ELSE PutObject(e.st, cfg, [op EXCEPT !.k = k])
+
 \* ---- the transition function ----
 Step(st, cfg, op) ==
   CASE op.op = "CreateBucket"  -> CreateBucket(st, cfg, op)
@@ -438,6 +478,7 @@ Step(st, cfg, op) ==
     [] op.op = "Abort"         -> Abort(st, cfg, op)
     [] op.op = "ListParts"     -> ListParts(st, cfg, op)
     [] op.op = "ListUploads"   -> ListUploads(st, cfg, op)
+    [] op.op = "Upload"        -> Upload(st, cfg, op)
 
 \* ---- the observable projection of a state (what a client can find out) ----
 \* Emitted with every tour so that the harness can audit the implementation's
@@ -461,7 +502,7 @@ Snap(st) ==
 
 Mutating == {"CreateBucket", "DeleteBucket", "PutObject", "PostObject", "DeleteObject",
              "DeleteMulti", "CopyObject", "PutVersioning", "DeleteObjectVersion",
-             "Initiate", "UploadPart", "Complete", "Abort"}
+             "Initiate", "UploadPart", "Complete", "Abort", "Upload"}
 
 \* =========================== properties of the design ===========================
 \* (state predicates over st, and step predicates over (st, op, result))
